@@ -639,12 +639,20 @@ func check05HTTPShape(c *Case, o *Obs, rec Rec) (vs []viol) {
 		kind = "handler-error"
 	}
 	cls := kind + "," + ctClass(c.ReqCT) + "," + acceptClass(c.Accept)
+	if c.PreCT != "" {
+		cls += ",after-" + ctClass(c.PreCT) + "-request"
+	}
 	add := func(obs, _ string, what string) {
 		vs = append(vs, viol{pc + ":" + obs + ":" + cls, fmt.Sprintf("%s %s (Content-Type %+q, Accept %+q): %s", c.Route, c.Proto, c.ReqCT, c.Accept, what)})
 	}
 	if o.Err != "" {
 		add("no-response", "", "client got no usable response: "+ascii(clip(o.Err, 160)))
 		return vs
+	}
+	if o.SeqDiff != "" {
+		// request isolation: the answer is a function of the request, not of
+		// what other clients asked the same mux before
+		add("response-depends-on-earlier-request", "", o.SeqDiff)
 	}
 	if rec.Ran && sc.Code == 0 {
 		return vs // successful call: not this property
@@ -870,7 +878,7 @@ func (g *c05Runner) flush() {
 
 // RunC05 is the status / error fidelity check.
 func RunC05(r *mon.Run) {
-	r.Rule = "a scripted handler behind a real Mux returns status (code, message, optional 2 details) before any reply or after 1 / 3 replies; one client per protocol observes the outcome: HTTP JSON/protobuf and Twirp (in-process and HTTP/1 socket), grpc-go over h2c, raw gRPC frames in-process and over h2c, gRPC-web binary/text (in-process and HTTP/1 socket), WebSocket (socket). Cases = (codes 0..16, 17, 18, 19, 31, 32, 63, 64, 100, 255, 256, 2^31-1, 2^31, 2^32-1 x 3 base messages) + (2-3 codes x every message of the message set: empty, ASCII, single bytes embedded in text, '%' at start/middle/end, multi-byte tails, 1 KiB, 70 KiB, 123/124-byte close-frame boundary, seeded random mixes of ASCII / '%' / control / multi-byte pieces), each with and without details, on every protocol x codec x method x reply-count variant, plus a class where the handler calls SetHeader / SendHeader / SetTrailer with custom metadata at entry or right before it returns the status, plus HTTP failures (handler errors on body-less GET and HttpBody upload routes, errors of the mux itself: no codec, no route, wrong verb, unknown method) under 11 request Content-Type x 11 Accept values (absent, registered, with parameters, other case, foreign, wildcard, non-matching, malformed), plus muxes built with small MaxSendMessageSize / MaxReceiveMessageSize options (64, 256 bytes) x long messages / details, plus client- and bidi-streaming gRPC clients (grpc-go, raw h2c) that keep their send side open until the status arrives (10 s watchdog + goroutine dump), plus a small class where the call's deadline has expired before the handler returns. Every class runs against the handler registered on the mux and (quick: reduced matrix) against the same handler on a real grpc.Server back-end that a second mux proxies through RegisterConn (codes up to 2^31-1). An execution is non-trivial when the scripted handler ran; distinct = (target, protocol, codec, method, replies before status, code class, message shape, details?)"
+	r.Rule = "a scripted handler behind a real Mux returns status (code, message, optional 2 details) before any reply or after 1 / 3 replies; one client per protocol observes the outcome: HTTP JSON/protobuf and Twirp (in-process and HTTP/1 socket), grpc-go over h2c, raw gRPC frames in-process and over h2c, gRPC-web binary/text (in-process and HTTP/1 socket), WebSocket (socket). Cases = (codes 0..16, 17, 18, 19, 31, 32, 63, 64, 100, 255, 256, 2^31-1, 2^31, 2^32-1 x 3 base messages) + (2-3 codes x every message of the message set: empty, ASCII, single bytes embedded in text, '%' at start/middle/end, multi-byte tails, 1 KiB, 70 KiB, 123/124-byte close-frame boundary, seeded random mixes of ASCII / '%' / control / multi-byte pieces), each with and without details, on every protocol x codec x method x reply-count variant, plus a class where the handler calls SetHeader / SendHeader / SetTrailer with custom metadata at entry or right before it returns the status, plus HTTP failures (handler errors on body-less GET and HttpBody upload routes, errors of the mux itself: no codec, no route, wrong verb, unknown method) under 11 request Content-Type x 11 Accept values (absent, registered, with parameters, other case, foreign, wildcard, non-matching, malformed), plus sequences (the request preceded on the same fresh mux by another client's request with the same Accept value and another Content-Type; the answer must equal the one a fresh mux gives to the request alone), plus a sweep of the status message length 0..40 on gRPC-web-text after 0..3 replies, plus muxes built with small MaxSendMessageSize / MaxReceiveMessageSize options (64, 256 bytes) x long messages / details, plus client- and bidi-streaming gRPC clients (grpc-go, raw h2c) that keep their send side open until the status arrives (10 s watchdog + goroutine dump), plus a small class where the call's deadline has expired before the handler returns. Every class runs against the handler registered on the mux and (quick: reduced matrix) against the same handler on a real grpc.Server back-end that a second mux proxies through RegisterConn (codes up to 2^31-1). An execution is non-trivial when the scripted handler ran; distinct = (target, protocol, codec, method, replies before status, code class, message shape, details?)"
 	r.Floor = 150
 	env, err := newEnv()
 	if err != nil {
@@ -1053,6 +1061,52 @@ func RunC05(r *mon.Run) {
 								Script: Script{Code: code, Msg: "50% done ✓", Details: code == 16}}
 							g.exec(c, c.Class)
 						}
+					}
+				}
+			}
+		}
+	}
+
+	// sequences: the failing (or succeeding) request is preceded on the same
+	// mux by another client's request with the same Accept value and another
+	// Content-Type
+	for _, ac := range []string{"text/plain", "text/html, image/webp", "image/*", "application/x-protobuf", "application/grpc", "-", "*/*", "application/json", "application/protobuf"} {
+		for _, pre := range []string{"application/json", "application/protobuf", "application/octet-stream", "image/png"} {
+			for _, b := range []struct{ route, ct, method string }{{"post", "application/json", "Echo"}, {"post", "application/protobuf", "Echo"}, {"get", "-", "Echo"}, {"get", "application/json", "SS"}, {"upload", "image/png", "UploadU"}, {"404", "application/json", "Echo"}} {
+				if b.ct == pre {
+					continue
+				}
+				for _, code := range []uint32{5, 0} {
+					if code == 0 && b.route != "post" {
+						continue
+					}
+					c := &Case{Kind: "C05http", Proto: "http", Codec: "json", Method: b.method, Class: "http-sequence", Route: b.route, ReqCT: b.ct, Accept: ac, PreCT: pre,
+						Script: Script{Code: code, Msg: "50% done ✓", Details: true, Replies: 1}}
+					if code != 0 {
+						c.Script.Replies = 0
+					}
+					g.exec(c, c.Class)
+				}
+			}
+		}
+	}
+
+	// gRPC-web (text: base64 chunking): the status after k replies with every
+	// message length 0..40, i.e. every residue of the trailer block length
+	for _, p := range []string{"grpcweb-text", "grpcweb-text-sock", "grpcweb"} {
+		for _, target := range []string{"", "proxy"} {
+			if target == "proxy" && p != "grpcweb-text" {
+				continue
+			}
+			for _, k := range []int{0, 1, 2, 3} {
+				for n := 0; n <= 40; n++ {
+					for _, code := range []uint32{5, 13} {
+						if code == 13 && !r.Thorough() && n%2 == 1 {
+							continue
+						}
+						c := &Case{Kind: "C05", Proto: p, Codec: "proto", Method: "SS", Class: "msg-length-sweep", Target: target,
+							Script: Script{Code: code, Msg: repeatTo("m", n), Details: n%5 == 0, Replies: k}}
+						g.exec(c, c.Class)
 					}
 				}
 			}
